@@ -435,7 +435,13 @@ def _step(S, op, what):
         return a, (mat, b.T, [])
     if name == "sTAA":
         v = _f6(op["v"])
-        sut(a.t.sTAA, _as_shape(v, op["shape"]))
+        arg = _as_shape(v, op["shape"])
+        if op.get("whole"):
+            # whole numbers handed over as an integer-typed array (tests/test_general_transform.py does exactly that)
+            v = np.round(v)
+            arg = _as_shape(v, op["shape"]).astype(np.int64)
+            S.ctx.label("sTAA with an integer-typed array")
+        sut(a.t.sTAA, arg)
         return a, (vec, v, [])
     if name == "sTAA_from":
         sut(a.t.sTAA, sut(b.t.gTAA))
@@ -936,7 +942,7 @@ def _constructors():
 def _setters():
     return st.one_of(
         _fd("sTM", a=_IDX, v=_v6(), half=_HALF), _fd("sTM_from", a=_IDX, b=_IDX),
-        _fd("sTAA", a=_IDX, v=_v6(), shape=_SHAPE), _fd("sTAA_from", a=_IDX, b=_IDX),
+        _fd("sTAA", a=_IDX, v=_v6(), shape=_SHAPE, whole=_WHOLE), _fd("sTAA_from", a=_IDX, b=_IDX),
         _setone(), _setone(), _setslice(), _setslice(),
         _fd("setQuat", a=_IDX, w=_w3(), s=_QS, aslist=st.booleans(), half=_HALF), _fd("setQuat_get", a=_IDX, b=_IDX),
         _fd("angleMod", a=_IDX), _fd("angleMod_fsr", a=_IDX))
